@@ -1072,7 +1072,9 @@ def random_history(ctx, dp, rng, pending, nops, allow_known):
 def run(ctx):
     dp = __import__("dendropy")
     rng = ctx.rng
-    ctx.set_budget(40, 600)
+    # the budget is counted from here (waiting for the shared lake build lock must not eat the exploration time)
+    ctx.t0 = __import__("time").time()
+    ctx.set_budget(38, 560)
     pending = []
     n = ctx.pick(3500, 60000)
     for i in range(n):
